@@ -596,6 +596,11 @@ class C19(Prop):
         for k, spec in (("f.multi", F), ("f.single", F1), ("f.empty", E), ("f.series.x", S), ("f.json", J({"k": 1})), ("f.empty1", E1)):
             out.append({"probe": "fresh", "data": [spec],
                         "ops": [["write", k, 0]] + [["fload", k, list(ts)] for ts in tsets] + [["fload", "f.none", [T("i", "gt", 1)]]]})
+        # a float column compared strictly with 0 (F24, repaired: numpy.seterr(all="raise") + PyTables nextafter(0.0, -1))
+        SF = {"t": "series", "names": ["j", "f"], "index": [[6, 2.75], [4, 2.5], [7, 3.0]], "name": "value", "values": [1.0, 3.0, 3.0]}
+        out.append({"probe": "fresh", "data": [SF],
+                    "ops": [["write", "f.z", 0], ["fload", "f.z", [T("value", "le", 0)]], ["fload", "f.z", [T("value", "lt", 0)]],
+                            ["fload", "f.z", [T("value", "gt", 0)]], ["fload", "f.z", [T("j", "gt", 0)]], ["fload", "f.z", [T("value", "gt", 1)]]]})
         # F12: nested two-/three-part keys (recorded finding `nested-key-paths`)
         out.append({"probe": "fresh", "data": [J([2]), F1, J([3])],
                     "ops": [["write", "a.b.c", 0], ["write", "a.b", 1], ["load", "a.b.c"], ["remove", "a.b.c"]]})
